@@ -37,7 +37,11 @@ where
     usize: num_traits::AsPrimitive<StorageT>,
     StorageT: 'static + num_traits::PrimInt + num_traits::Unsigned,
 {
-    let prod = &ast.prods[usize::from(pidx)];
+    // (The productions the grammar constructor adds after the AST's own - the start production,
+    // the implicit-token productions of Eco grammars - have no text.)
+    let Some(prod) = ast.prods.get(usize::from(pidx)) else {
+        return (Vec::new(), Vec::new());
+    };
     prod.symbols
         .iter()
         .map(|sym| match sym {
@@ -193,9 +197,9 @@ impl<'a> SpannedDiagnosticFormatter<'a> {
                     SpansKind::DuplicationError => {
                         format!("{} occurrence", Self::ordinal(span_num + 1))
                     }
-                    SpansKind::Error => {
-                        unreachable!("Should contain a single span at the site of the error")
-                    }
+                    // (An error may point at more than one place, e.g. at both halves of an
+                    // unknown `Namespace::Member` value of a `%grmtools` section.)
+                    SpansKind::Error => String::new(),
                     _ => "Unrecognized spanskind".to_string(),
                 };
                 out.push_str(&self.prefixed_underline_span_with_text(dots, *span, s, '^'));
@@ -319,7 +323,10 @@ impl<'a> SpannedDiagnosticFormatter<'a> {
             let shift_name = grm.token_name(*s_tok_idx).unwrap();
             let reduce_name = grm.rule_name_str(r_rule_idx);
             let (_r_prod_names, mut r_prod_spans) = pidx_prods_data(ast, *r_prod_idx);
-            let fallback_span = ast.prods[usize::from(*r_prod_idx)].prod_span;
+            let fallback_span = ast
+                .prods
+                .get(usize::from(*r_prod_idx))
+                .map_or(r_rule_span, |prod| prod.prod_span);
             out.pushln(
                 self.file_location_msg(
                     format!(
